@@ -69,6 +69,27 @@ NON_PD3 = [((9, 10), (9, 10), (-9, 10)), ((4, 5), (4, 5), (-1, 2)), ((-7, 10), (
            ((1, 1), (1, 2), (-1, 2)), ((-3, 4), (-3, 4), (-3, 4)), ((1, 2), (1, 1), (0, 1))]
 
 
+# off-diagonal factors that add up to zero (in this order of positions the Cholesky factor is rational)
+CANCEL3 = [((4, 5), (-2, 3), (-2, 15)), ((4, 5), (-2, 15), (-2, 3)), ((-8, 17), (2, 3), (-10, 51)),
+           ((24, 25), (-8, 21), (-304, 525)), ((4, 5), (-8, 21), (-44, 105)), ((-4, 5), (2, 3), (2, 15))]
+# the same with dyadic factors (exact cancellation in floating point; the factor is irrational: oracle only)
+CANCEL3_DYADIC = [((1, 2), (-1, 2), (0, 1)), ((1, 2), (-1, 4), (-1, 4)), ((-1, 2), (1, 4), (1, 4)), ((0, 1), (1, 4), (-1, 4)),
+                  ((3, 4), (-3, 4), (0, 1)), ((-1, 4), (-1, 4), (1, 2))]
+
+
+def minors_pd(k, rho):
+    """positive definiteness of the correlation matrix by leading principal minors (exact)"""
+    c = [[Fraction(1) if i == j else rho.get((i, j), Fraction(0)) for j in range(k)] for i in range(k)]
+    if k == 1:
+        return True
+    m2 = c[0][0] * c[1][1] - c[0][1] * c[1][0]
+    if k == 2:
+        return m2 > 0
+    m3 = (c[0][0] * (c[1][1] * c[2][2] - c[1][2] * c[2][1]) - c[0][1] * (c[1][0] * c[2][2] - c[1][2] * c[2][0])
+          + c[0][2] * (c[1][0] * c[2][1] - c[1][1] * c[2][0]))
+    return m2 > 0 and m3 > 0
+
+
 def frac(n, d):
     f = Fraction(n, d)
     return [f.numerator, f.denominator]
@@ -90,7 +111,10 @@ def gen_corr(rng, k):
     if r < 0.32:
         t = rng.choice(NON_PD3)
         return "not-pd", [[0, 1] + frac(*t[0]), [0, 2] + frac(*t[1]), [1, 2] + frac(*t[2])]
-    if r < 0.42:      # only one pair correlated
+    if r < 0.44:
+        t = rng.choice(CANCEL3)
+        return "pd-cancelling", [[0, 1] + frac(*t[0]), [0, 2] + frac(*t[1]), [1, 2] + frac(*t[2])]
+    if r < 0.52:      # only one pair correlated
         a, b, c = rng.choice(PYTH[:-1])
         pa, pb = rng.choice([(0, 1), (0, 2), (1, 2)])
         return "pd-one-pair", [[pa, pb] + frac(rng.choice([1, -1]) * a, c)]
@@ -113,8 +137,10 @@ def gen_case(rng, seed):
     k = rng.choice([1, 2, 2, 2, 3, 3, 3])
     sources = [mc.gen_source(rng, repeated_ok=True, positive_error=True) for _ in range(k)]
     small = any(s["kind"] == "repeated" for s in sources)
-    allow_div = (not small) and rng.random() < 0.3
     kind, corr_pos = gen_corr(rng, k)
+    # a division is only used where the draws are dyadic (no correlation applied): with a rational, non-dyadic factor a
+    # denominator that is exactly 0 in Q is 1e-17 in floating point, i.e. a finite outcome (rounding, not modelled)
+    allow_div = (not small) and not kind.startswith("pd") and rng.random() < 0.5
     case = {"seed": seed, "okind": rng.choice(["uniform", "uniform", "two", "peak", "coarse"]),
             "g": rng.choice([4, 5, 6, 8] if small else [4, 6, 8, 12, 16]),
             "sources": sources, "corr": [], "corr_pos": corr_pos, "corr_kind": kind,
@@ -199,8 +225,8 @@ def correspondence(ctx):
                 res.disagreements.append({"name": "Model.MC.compute_samples/step vs MonteCarloEvaluator", "kind": "history",
                                           "case": cases_runs[base + j][0]})
     res.extra["disagreeing_cases_total"] = total_bad
-    res.rule = ("formula over 1-3 source measurements (all used; + - * / neg, constants, shared intermediate results; 30% with "
-                "a division whose denominator hits 0 on some draws), uncertainties > 0, 20% sources given by readings (error != "
+    res.rule = ("formula over 1-3 source measurements (all used; + - * / neg, constants, shared intermediate results; with a division whose "
+                "denominator hits 0 on some draws where no correlation is applied), uncertainties > 0, 20% sources given by readings (error != "
                 "std); correlations assigned by position in the implementation's own source order: none / rational Cholesky "
                 "factor built from Pythagorean pairs and rational points of the unit sphere / one pair only / jointly not "
                 "positive definite (triples, rho = +-1); numpy.random.normal replaced by recorded dyadic offsets, N = 4..16 "
@@ -315,9 +341,15 @@ def check_design(case):
 def gen_design_case(rng):
     k = rng.choice([1, 2, 2, 3, 3, 3])
     kind, corr_pos = gen_corr(rng, k)
+    if k == 3 and rng.random() < 0.3:
+        t = rng.choice(CANCEL3_DYADIC)
+        corr_pos = [[i, j] + frac(*v) for (i, j), v in zip(((0, 1), (0, 2), (1, 2)), t) if v[0] != 0]
+    rho = {}
+    for i, j, num, den in corr_pos:
+        rho[(i, j)] = rho[(j, i)] = Fraction(num, den)
     # the covariance of the draws does not depend on the order of the sources: positions are used as creation indices
     sources = [mc.gen_source(rng, repeated_ok=True, positive_error=True) for _ in range(k)]
-    return {"sources": sources, "corr": corr_pos, "pd": kind != "not-pd",
+    return {"sources": sources, "corr": corr_pos, "pd": minors_pd(k, rho),
             "coef": [fx(rng.choice([1.0, -1.0, 2.0, 0.5, -1.5, 3.0])) for _ in range(k)],
             "const": fx(rng.choice([0.0, 1.0, -2.5])), "size_mode": rng.choice(["global", "own"])}
 
